@@ -45,7 +45,7 @@ def synth(rng, interp, smax_model, field=None, grid="linspace"):
     elif grid == "geometric":
         p = np.geomspace(pmax / 1000, pmax, n)
     # the T1 series has its own power grid — sometimes with as many points as the enhancement series, never the same powers
-    n1 = n if rng.random() < 0.3 else rng.randint(4, 8)
+    n1 = n if rng.random() < 0.3 else rng.choice([3, 3, 4, 5, 6, 7, 8])      # three points: the least a second-order fit can use
     pT = np.linspace(pmax / 150, 0.9 * pmax, n1)
     if interp == "linear":
         slope = rng.uniform(0.0, 0.3) / pmax
